@@ -8,6 +8,7 @@ import sys
 ENGINES = {
     "C06": "engines.c06",
     "C12": "engines.c12",
+    "C13": "engines.c13",
 }
 
 
